@@ -181,6 +181,11 @@ def oracle(line, ans):
         idents += names
         if len(names) != len(arg): fails.append(("wire", v))
         if len(set(names)) != len(names): fails.append(("dup-def", v))
+    elif kind == "refunion" and k == "ok":
+        # variant identifiers of an untagged enum over named types: valid Rust, one per definition, pairwise distinct
+        idents += list(v)
+        if len(v) != len(arg): fails.append(("wire", v))
+        if len(set(v)) != len(v): fails.append(("dup-variant", v))
     return fails, idents
 
 def nontrivial(line, ans):
@@ -246,6 +251,15 @@ def pair_requests(ctx, strings, snake_of, pascal_of):
         reqs.append("propsx %s" % J([s, ctx.rng.choice(strings[:4000])]))
     for _ in range(budget // 6):
         reqs.append("propsx %s" % J(ctx.rng.sample(strings[:4000], ctx.rng.choice([1, 2, 3]))))
+    # untagged unions over named definitions: the variant identifiers are what is left of the definition names once their common
+    # prefix is cut off — keywords, digits, nothing at all
+    stems = ["link", "Link", "my-type", "a", "node_", "x1", "get", "Value"]
+    tails = ["self", "Self", "type", "crate", "super", "next", "1", "2nd", "", "-", "x", "fn", "Box", "a b"]
+    for _ in range(max(40, budget // 12)):
+        st = ctx.rng.choice(stems); sep = ctx.rng.choice(["-", "_", "", " "])
+        ts = ctx.rng.sample(tails, ctx.rng.choice([2, 2, 3]))
+        names = [st + sep + t for t in ts]
+        if len(set(names)) == len(names) and "T" not in names: reqs.append("refunion %s" % J(names))
     # non-colliding lists for contrast
     pool = [s for s in strings[:4000]]
     for _ in range(budget // 4):
@@ -308,6 +322,10 @@ def attribute(pred, line, kind, findings):
         return ids["C08-def-collision"]
     if kind == "panic" and k == "variants" and "C08-variant-panic" in ids and pred.variant_collision(arg):
         return ids["C08-variant-panic"]
+    # an untagged union over definitions two of which take ONE type name: the variants named after them collide too (the
+    # definition collision seen from the union; the panic is the one of C08-variant-panic)
+    if k == "refunion" and kind in ("panic", "dup-variant", "wire") and "C08-def-collision" in ids and pred.def_collision(arg):
+        return ids["C08-def-collision"]
     return None
 
 def check_idents(idents):
@@ -334,12 +352,18 @@ def m3_stage(ctx, strings, snake_of, pascal_of):
     for nm in names:
         st = {"title": "S", "type": "object", "properties": {nm: {"type": "string"}}, "required": [nm]}
         en = {"title": "E", "type": "string", "enum": [nm]}
-        cases.append((nm, b.add_case([{"type": st, "name": None}, {"type": en, "name": None}], tag=nm[:30])))
+        # the same enumerated value reached through a composition (the enumeration intersected with a length bound it meets,
+        # counted in characters): the value keeps its variant and its exact wire name
+        em = {"title": "Em", "allOf": [{"type": "string", "enum": [nm, "zz"]}, {"type": "string", "maxLength": max(len(nm), 2)}]}
+        calls = [{"type": st, "name": None}, {"type": en, "name": None}] + ([{"type": em, "name": None}] if nm != "zz" else [])
+        cases.append((nm, b.add_case(calls, tag=nm[:30])))
     b.prepare(); b.build()
     reqs = []; meta = []
     for nm, c in cases:
         reqs.append((c, "S", "rt", batch.J({nm: "v"}))); meta.append((nm, "struct-rt"))
         reqs.append((c, "E", "rt", batch.J(nm))); meta.append((nm, "enum-rt"))
+        if nm != "zz" and c.type("Em") is not None:
+            reqs.append((c, "Em", "rt", batch.J(nm))); meta.append((nm, "merged-enum-rt"))
         idn = snake_of.get(nm)
         if idn is not None and idn != nm:
             reqs.append((c, "S", "de", batch.J({idn: "v"}))); meta.append((nm, "struct-ident-key"))
